@@ -21,7 +21,7 @@
 
    Names are abstract: a file name is (base, idx) standing for "<base>_<idx>_mod.f90"; the text
    of a kernel file is (module name, routine name, body).  The string-level computation of the
-   names (_new_name, the "_mod" stripping) is modelled separately in C29/Names.v. *)
+   names (_new_name, the "_mod" stripping) is modelled separately in C29/NamesModel.v. *)
 From Coq Require Import List Arith Bool.
 Import ListNotations.
 
@@ -187,30 +187,41 @@ Definition onat_eqb (a b : option nat) : bool :=
 Definition fs_agree (m o : fsys) : bool :=
   forallb (fun e => ocontent_eqb (lookup m (fst e)) (lookup o (fst e))) (m ++ o).
 
-(* What the harness observes after a step of run [a]: the (pc, psy) of runs 0..n-1, and the
-   content (None = absent) of (i) the file the action of run [a] was aimed at and (ii) every
-   file whose content differs from the snapshot before the step.  [step] changes no other file
-   than (i), so agreement on these files after every step together with agreement of the whole
-   directory at the start is agreement of the whole directory after every step; the whole
-   directory is compared again at the end. *)
+(* What the harness observes after a step of run [a]:
+   - the content (None = absent) of (i) the file the action of run [a] was aimed at and (ii)
+     every file whose content differs from the snapshot before the step;
+   - the (pc, psy) of run [a] and of every run whose observed (pc, psy) differs from the
+     observation before the step.
+   [step] changes no other file than (i) and no other run than [a], so agreement on these after
+   every step, together with agreement of all runs at the start, is agreement of the whole
+   directory and of all runs after every step; everything is compared again at the end. *)
 Definition delta := list (fname * option content).
 Definition runobs := list (pc * option nat).
+Definition rdelta := list (nat * (pc * option nat)).
 
 Definition delta_agree (fs : fsys) (d : delta) : bool :=
   forallb (fun e => ocontent_eqb (lookup fs (fst e)) (snd e)) d.
 
+Definition run_agree (r : run) (o : pc * option nat) : bool :=
+  pc_eqb (r_pc r) (fst o) && onat_eqb (r_psy r) (snd o).
+
+Definition rdelta_agree (rs : nat -> run) (d : rdelta) : bool :=
+  forallb (fun e => run_agree (rs (fst e)) (snd e)) d.
+
 Fixpoint runs_agree (rs : nat -> run) (i : nat) (l : runobs) : bool :=
   match l with
   | [] => true
-  | (p, y) :: r => pc_eqb (r_pc (rs i)) p && onat_eqb (r_psy (rs i)) y && runs_agree rs (S i) r
+  | o :: r => run_agree (rs i) o && runs_agree rs (S i) r
   end.
 
-Fixpoint replay (sch : scheme) (st : state) (tr : list (nat * delta * runobs)) : option state :=
+Definition obs_step := (nat * delta * rdelta)%type.
+
+Fixpoint replay (sch : scheme) (st : state) (tr : list obs_step) : option state :=
   match tr with
   | [] => Some st
-  | (a, d, ro) :: r =>
+  | (a, d, rd) :: r =>
       let st' := step sch st a in
-      if delta_agree (st_fs st') d && runs_agree (st_runs st') 0 ro then replay sch st' r else None
+      if delta_agree (st_fs st') d && rdelta_agree (st_runs st') rd then replay sch st' r else None
   end.
 
 (* compact constructors for the generated cases *)
@@ -219,31 +230,31 @@ Definition mkT (mb mi rb ri d : nat) : content :=
   Text {| c_mod := (mb, mi); c_rout := (rb, ri); c_body := d |}.
 
 (* a case: scheme, initial directory, kernels of runs 0..n-1, observed initial run states, the
-   schedule with the observation after each step, the observed final directory *)
-Definition case := (scheme * fsys * list kernel * runobs * list (nat * delta * runobs) * fsys)%type.
+   schedule with the observation after each step, the observed final run states and directory *)
+Definition case := (scheme * fsys * list kernel * runobs * list obs_step * runobs * fsys)%type.
 Definition check_case (c : case) : bool :=
   match c with
-  | (sch, fs0, ks, ro0, tr, fsN) =>
+  | (sch, fs0, ks, ro0, tr, roN, fsN) =>
       let st := init fs0 (ks_of ks) in
       runs_agree (st_runs st) 0 ro0 &&
       match replay sch st tr with
-      | Some stN => fs_agree (st_fs stN) fsN
+      | Some stN => runs_agree (st_runs stN) 0 roN && fs_agree (st_fs stN) fsN
       | None => false
       end
   end.
 
 (* index of the first step at which model and observation differ (for replay files) *)
-Fixpoint first_diff (sch : scheme) (st : state) (tr : list (nat * delta * runobs)) (k : nat) : option nat :=
+Fixpoint first_diff (sch : scheme) (st : state) (tr : list obs_step) (k : nat) : option nat :=
   match tr with
   | [] => None
-  | (a, d, ro) :: r =>
+  | (a, d, rd) :: r =>
       let st' := step sch st a in
-      if delta_agree (st_fs st') d && runs_agree (st_runs st') 0 ro then first_diff sch st' r (S k)
+      if delta_agree (st_fs st') d && rdelta_agree (st_runs st') rd then first_diff sch st' r (S k)
       else Some k
   end.
 Definition model_trace (c : case) : option nat * list (list pc) * fsys :=
   match c with
-  | (sch, fs0, ks, ro0, tr, fsN) =>
+  | (sch, fs0, ks, ro0, tr, roN, fsN) =>
       let st := init fs0 (ks_of ks) in
       let n := length ks in
       let sts := fold_left (fun acc x => match acc with
